@@ -38,8 +38,7 @@ class Ty(object):
 
 
 EMPTY = Ty()
-SEQ_WORDS = ('list', 'List', 'Sequence', 'MutableSequence', 'Iterable', 'Iterator', 'set', 'Set', 'tuple',
-             'Tuple', 'frozenset')
+SEQ_WORDS = ('list', 'List', 'Sequence', 'MutableSequence', 'Iterable', 'Iterator', 'set', 'Set', 'frozenset')
 MAP_WORDS = ('dict', 'Dict', 'Mapping', 'MutableMapping')
 
 
@@ -61,6 +60,8 @@ def _ty(node, known):
     if isinstance(node, ast.Name):
         return Ty([node.id]) if node.id in known else EMPTY
     if isinstance(node, ast.Attribute):
+        if unparse(node.value) in ('ast', 't', 'typing'):
+            return EMPTY
         return Ty([node.attr]) if node.attr in known else EMPTY
     if isinstance(node, ast.BinOp) and isinstance(node.op, ast.BitOr):
         return _ty(node.left, known) | _ty(node.right, known)
